@@ -186,6 +186,55 @@ def squared_sequence(case, acc):
     return v
 
 
+PSEQ_OPS = [('pair', 0, 0, (1.0, 2.0)), ('pair', 1, 0, (1.25, 2.5)), ('pair', 1, 1, (1.5, 2.75)), ('default', (3.5, 4.5)), ('default', (2.25, 5.5))]
+
+
+def pairs_seq_cases(tier):
+    depth = 3 if tier == 'quick' else 4
+    return [dict(kind='pairs-seq', ops=list(seq)) for k in range(1, depth + 1) for seq in itertools.product(range(len(PSEQ_OPS)), repeat=k)]
+
+
+def pairs_sequence(case, acc):
+    """One Parameters object receives pair and default lines one at a time; all nine look-ups are made in every intermediate state
+    (before the first line, too) and compared with a dictionary-plus-default model."""
+    names = NAMES[:3]
+    upairs = [(a, b) for i, a in enumerate(names) for b in names[i:]]
+    p = propka.parameters.Parameters()
+    model, default = {}, (0.0, 0.0)
+    v = []
+
+    def observe(where):
+        acc.extra['states'] += 1
+        pm = p.sidechain_cutoffs
+        for a in names:
+            for b in names:
+                g1, g2 = tuple(pm.get_value(a, b)), tuple(pm.get_value(b, a))
+                want = model.get((a, b), default)
+                if g1 != g2:
+                    v.append(('pairs-asymmetric/after-sequence', 'after %s: get_value(%s,%s)=%r reversed %r' % (where, a, b, g1, g2)))
+                elif g1 != tuple(want):
+                    v.append(('pairs-default-not-applied/after-sequence' if (a, b) not in model else 'pairs-wrong-value/after-sequence',
+                              'after %s: get_value(%s,%s)=%r expected %r' % (where, a, b, g1, want)))
+    observe('construction')
+    done = []
+    for i in case['ops']:
+        op = PSEQ_OPS[i]
+        if op[0] == 'pair':
+            a, b = upairs[op[1] + 1] if op[1] else upairs[0]
+            if op[2]:
+                a, b = b, a
+            p.parse_line('sidechain_cutoffs %s %s %s %s\n' % (a, b, op[3][0], op[3][1]))
+            model[(a, b)] = model[(b, a)] = op[3]
+            done.append('pair(%s,%s)' % (a, b))
+        else:
+            p.parse_line('sidechain_cutoffs default %s %s\n' % op[1])
+            default = op[1]
+            done.append('default%s' % (op[1],))
+        acc.extra['transitions'] += 1
+        observe(' '.join(done))
+    return v
+
+
 SCALAR_LINES = ['Nmin 123\n', 'model_pkas XYZ 4.25\n', 'acid_list XYZ\n', 'version SimpleHB\n', 'shared_determinants 1\n',
                 'COO_HIS_exception 2.5\n', 'ions QQ 3\n', 'backbone_NH_hydrogen_bond XYZ -0.5 2.0 3.0\n',
                 'protein_group_mapping XYZ-CG COO\n', 'desolvationPrefactor -11.5  # comment\n', '# only a comment\n', '\n']
@@ -200,7 +249,7 @@ def scalar_cases(tier):
 
 
 def plan(tier, seed):
-    cases = matrix_cases(tier) + pair_cases(tier) + squared_cases() + squared_seq_cases(tier) + scalar_cases(tier) + sequence_cases(tier)
+    cases = matrix_cases(tier) + pair_cases(tier) + squared_cases() + squared_seq_cases(tier) + pairs_seq_cases(tier) + scalar_cases(tier) + sequence_cases(tier)
     size = 300
     shards = [cases[i:i + size] for i in range(0, len(cases), size)] + [[dict(kind='shipped')]]
     return dict(shards=shards, exhaustive=True,
@@ -208,7 +257,8 @@ def plan(tier, seed):
                       'all row orders (quick: 2 row orders for 4 names); pair cut-offs: all subsets of <= %d of the 6 unordered '
                       'pairs over 3 names, every line order, both orientations of mixed pairs, default line at every position; '
                       'squared/plain cut-offs: 4 names x 8 values x 4 orders of assignment, and every sequence of <= %d writes (parameter line or '
-                      'attribute assignment, plain or squared, 2 values) with both values read in every intermediate state; every file also '
+                      'attribute assignment, plain or squared, 2 values) with both values read in every intermediate state, and every sequence of <= 3/4 '
+                      'pair / default lines with all look-ups made in every intermediate state; every file also '
                       'without final newline, with CRLF line ends and with trailing blank lines; every ordered pair (thorough: triple) of a pool of files '
                       'read one after the other in one process, all objects verified afterwards; scalar/list/dict lines: all ordered '
                       'selections of %d of 12 lines; the shipped file with every created group type. non-trivial = distinct files '
@@ -345,6 +395,9 @@ def run_case(case, ctx, acc):
     if k == 'squared-seq':
         v += squared_sequence(case, acc)
         acc.case(nontrivial_key=jhash(case), outcome='squared-seq')
+    elif k == 'pairs-seq':
+        v += pairs_sequence(case, acc)
+        acc.case(nontrivial_key=jhash(case), outcome='pairs-seq')
     elif k == 'read-sequence':
         d0 = propka.parameters.Parameters()
         pristine = {a: __import__('copy').deepcopy(getattr(d0, a)) for a in SCALAR_ATTRS}
